@@ -125,6 +125,18 @@ def leaf_script(rng, leaf_id: bytes, pad_ok=True):
     if pad_ok and rng.random() < 0.15:
         n = rng.choice((100, 200, 850))
         s = beacon(leaf_id) + isa.push(bytes(n)) + O('POP0') + body
+    elif rng.random() < 0.25:
+        # a leaf of EXACTLY the length of a digest / a key / a signature / a
+        # size-field boundary (harmless two- and three-byte fillers)
+        want = rng.choice((20, 31, 32, 32, 32, 33, 64, 65) if not pad_ok else
+                          (20, 31, 32, 32, 32, 33, 64, 65, 128, 255, 256, 257))
+        gap = want - len(s)
+        if gap >= 2:
+            three = gap % 2
+            fill = (O('TRUE') + O('POP0')) * ((gap - 3 * three) // 2) \
+                + (isa.push(b'\x09') + O('POP0')) * three
+            s = beacon(leaf_id) + fill + body
+            assert len(s) == want
     return s
 
 
